@@ -56,6 +56,7 @@ TABLE = {
  "an error in the truth test of a trigger expression no longer ends the legacy trigger": ("C18", "legacy subsystem: @state_trigger('Boom(int(pyscript.go))') (also an event filter and a @state_active expression) where Boom(0).__bool__ raises ValueError: one message on custom_components.pyscript.trigger instead of the script's logger, and the trigger function never ran again"),
  "scripts reloaded because they import a reloaded module are started again": ("C10", "a.py imports modules/m1.py and has an @event_trigger and a @service; pyscript.reload(global_ctx='modules.m1'): file.a was re-executed but left unstarted - its trigger never ran again and (default subsystem) its service was gone until the next general reload"),
  "a changed global option reloads all scripts on the first reload after start-up too": ("C10", "allow_all_imports toggled in the yaml configuration, then the first pyscript.reload after start-up: only files that had changed themselves were reloaded (nothing, if none had); the documented reload of all scripts only happened from the second reload on"),
+ "a @service declaration that is rejected for one of its names registers none of them": ("C12", "context S declares @service('test.s1'); context T declares @service('test.t_own', 'test.s1') (refused: s1 belongs to S); unload the integration: test.t_own is still registered in Home Assistant (both subsystems; in the default one also after 'del' of T's function)"),
 }
 log = subprocess.run(["git", "-C", "/repo", "log", "--reverse", "--format=%h %s"], capture_output=True, text=True).stdout.strip().split("\n")
 fixed = []
